@@ -77,7 +77,7 @@ CHECKS = {
             "interleavings are explored at the granularity of the verif yield points (one sits immediately before the cache insertion, one between database swap and purge)",
             "weighted answers are compared for membership in the declared candidate set only",
         ],
-        "required_probes": {"quick": ["cache_hit", "query_overlaps_reload", "reload_ok"],
+        "required_probes": {"quick": ["cache_hit", "cache_expired", "query_overlaps_reload", "reload_ok"],
                             "thorough": ["cache_hit", "cache_expired", "query_overlaps_reload", "reload_ok"]},
     },
     "C19": {
